@@ -40,9 +40,12 @@ class AppStopTask(ItemTask[AppSession], HookableMixin):
 
     @asyncio.coroutine
     def process(self, session: AppSession):
-        statistics = session.factory['Statistics']
         app = session.factory['Application']
-        self._update_exit_code_from_stats(statistics, app)
+
+        # Not there if the start up was stopped before it began
+        if 'Statistics' in session.factory:
+            statistics = session.factory['Statistics']
+            self._update_exit_code_from_stats(statistics, app)
 
         try:
             new_exit_code = self.hook_dispatcher.call(PluginFunctions.exit_status, session, app.exit_code)
